@@ -7,7 +7,7 @@ sd=$(readlink -f "$1"); shift
 d=$(mktemp -d /tmp/bbs.XXXXXX)
 rsync -a --exclude .git /repo/ "$d/"
 echo "== demo on unchanged copy"; (cd "$d" && PYTHONPATH="$d/blackbird_python" PYTHONDONTWRITEBYTECODE=1 timeout 300 /venv/bin/python "$sd/demo.py" >/dev/null 2>&1; echo "demo exit (unchanged) = $?")
-if ! (cd "$d" && patch -p1 -s < "$sd/patch.diff"); then echo "PATCH FAILED"; rm -rf "$d"; exit 2; fi
+if ! (cd "$d" && patch --binary -p1 -s < "$sd/patch.diff"); then echo "PATCH FAILED"; rm -rf "$d"; exit 2; fi
 echo "== baseline with patch"; /verif/tools/baseline.py "$d" | head -4
 echo "== demo with patch"; (cd "$d" && PYTHONPATH="$d/blackbird_python" PYTHONDONTWRITEBYTECODE=1 timeout 300 /venv/bin/python "$sd/demo.py" 2>&1 | tail -3; echo "demo exit (patched) = ${PIPESTATUS[0]}")
 cd /verif
